@@ -73,18 +73,8 @@ def signature(r):
         # attributed to a mechanism-level deviation of Search.tla: the transcription of the code with that
         # deviation switched on produces exactly the logged answer
         return "C08/%s/query/%s/%s" % (modec, expl[0], effect(r))
-    detail = []
-    for k in ("missing", "extra", "uncovered"):
-        if r[k]:
-            detail.append("%s:%s" % (k, ",".join(sorted(r[k]))))
-    for k in ("dup", "order", "notfirst"):
-        if r[k]:
-            detail.append(k)
-    if r["source"] != r["expSource"]:
-        detail.append("source:%s->%s" % (r["expSource"], r["source"]))
-    if r["res"] != "ok":
-        detail.append("%s:%s" % (r["res"], r["class"]))
-    return "C08/%s/query/unexplained/%s+%s/%s" % (modec, r["sort"], r["source"] or "-", "+".join(detail) or "count")
+    # not attributable: source x effect (the classes of the blobs concerned are in the description)
+    return "C08/%s/query/unexplained/%s/%s" % (modec, r["source"] or "-", effect(r))
 
 
 def fmt_tree(tr, i=1):
@@ -103,28 +93,45 @@ def fmt_tree(tr, i=1):
     return s
 
 
-def validate(ctx, wname, tracefile, leg, wspec, stats):
-    """Validate one trace file against Trace_Search on world wname; classify every VIOL line."""
-    r = ctx.tlc_trace("Trace_Search", "Trace_Search.cfg", tracefile, overrides=wconst(wname), timeout=900)
-    if not r["accepted"]:
-        raise vlib.MachineryError("trace %s not fully consumed: %s" % (tracefile, r["out"][-1500:]))
+CHUNK = 3000
+
+
+def validate(ctx, wname, tracefile, leg, wspec, stats, replay_path=None):
+    """Validate one trace file against Trace_Search on world wname (in chunks of CHUNK lines, side by side);
+    classify every VIOL line."""
     evs = vlib.read_ndjson(tracefile)
-    nviol = 0
-    for m in re.finditer(r'<<"VIOL", (\d+), (".*")>>', r["out"]):
-        nviol += 1
-        line = int(m.group(1))
-        rep = json.loads(json.loads(m.group(2)))
+    chunks = [evs[i:i + CHUNK] for i in range(0, len(evs), CHUNK)] or [[]]
+
+    def one(ci):
+        if len(chunks) == 1:
+            tf = tracefile
+        else:
+            tf = "%s.%d" % (tracefile, ci)
+            vlib.write_jsonl(tf, chunks[ci])
+        r = ctx.tlc_trace("Trace_Search", "Trace_Search.cfg", tf, overrides=wconst(wname), timeout=1500)
+        if not r["accepted"]:
+            raise vlib.MachineryError("trace %s not fully consumed: %s" % (tf, r["out"][-1500:]))
+        return [(ci * CHUNK + int(m.group(1)), json.loads(json.loads(m.group(2))))
+                for m in re.finditer(r'<<"VIOL", (\d+), (".*")>>', r["out"])]
+    if len(chunks) == 1:
+        found = one(0)
+    else:
+        with ThreadPoolExecutor(max_workers=4) as ex:
+            found = [v for part in ex.map(one, range(len(chunks))) for v in part]
+    world = None
+    for line, rep in found:
         ev = evs[line - 1]
         sig = signature(rep)
         what = "%s world=%s mode=%s sort=%s limit=%d source=%s %s: %s -> out=%s (%d expected) %s" % (
             leg, wname, ev["mode"], ev["sort"], ev["limit"], ev["source"], ev["res"] + (":" + ev["err"][:80] if ev["err"] else ""),
             fmt_tree(ev["tree"])[:400], ev["out"][:12], rep["nexp"],
             {k: v for k, v in rep.items() if k in ("missing", "extra", "uncovered", "explained", "missingIds", "extraIds") and v})
-        replay = {"property": "C08", "leg": leg, "world_spec": wspec, "world_name": wname,
-                  "world": json.load(open(os.path.join(ctx.specs(), "c08_%s.json" % wname))),
+        if world is None:
+            world = json.load(open(os.path.join(ctx.specs(), "c08_%s.json" % wname)))
+        replay = {"property": "C08", "leg": leg, "world_spec": wspec, "world_name": wname, "world": world,
                   "mode": ev["mode"], "query": {"tree": ev["tree"], "sort": ev["sort"], "limit": ev["limit"]},
                   "signature": sig, "report": rep}
-        ctx.discrepancy(sig, what[:900], replay)
+        ctx.discrepancy(sig, what[:900], replay_path or replay)
         stats.setdefault("viol_sigs", set()).add(sig)
     for ev in evs:
         kinds = sorted(set(n["k"] for n in ev["tree"]))
@@ -132,11 +139,13 @@ def validate(ctx, wname, tracefile, leg, wspec, stats):
                            if n[f] not in (0, "", False)))
         ctx.distinct("%s|%s|%s|%s|%s|%s|%s" % (ev["mode"], ev["sort"], ev["source"], ev["res"] + ev["class"],
                                               ev["tree"][0]["k"], "".join(k[0] for k in kinds), ",".join(feats)))
-        stats["sources"][ev["source"] or "-"] = stats["sources"].get(ev["source"] or "-", 0) + 1
-        stats["res"][ev["res"] + (":" + ev["class"] if ev["class"] else "")] = stats["res"].get(ev["res"] + (":" + ev["class"] if ev["class"] else ""), 0) + 1
+        key = ev["source"] or "-"
+        stats["sources"][key] = stats["sources"].get(key, 0) + 1
+        key = ev["res"] + (":" + ev["class"] if ev["class"] else "")
+        stats["res"][key] = stats["res"].get(key, 0) + 1
     stats["events"] += len(evs)
-    stats["viols"] += nviol
-    return evs, r
+    stats["viols"] += len(found)
+    return evs, None
 
 
 def negative_sample(ctx, wname, evs):
@@ -193,7 +202,7 @@ def run(ctx, replay):
         qf = ctx.path("replay_q.jsonl")
         vlib.write_jsonl(qf, [rp["query"]])
         out = run_queries(ctx, drv, wname, qf, rp["mode"], "replay")
-        validate(ctx, wname, out, "replay", rp.get("world_spec"), stats)
+        validate(ctx, wname, out, "replay", rp.get("world_spec"), stats, replay_path=replay)
         ctx.cov["traces_validated_against_impl"] = stats["events"]
         ctx.cov["evaluations"] = stats["events"]
         return
@@ -215,7 +224,7 @@ def run(ctx, replay):
     jobs = []
 
     # ---- S: every tree of the bounded grammar x sorts, per world, split over processes
-    s_sizes = {"ws": (9, 3), "wp": (6, 2), "wf": (7, 2)} if quick else {"ws": (14, 6), "wp": (14, 10), "wf": (14, 10)}
+    s_sizes = {"ws": (10, 3), "wp": (7, 2), "wf": (8, 2)} if quick else {"ws": (14, 6), "wp": (14, 10), "wf": (14, 10)}
     for w, (msize, parts) in s_sizes.items():
         for p in range(parts):
             jobs.append(("S", lambda w=w, msize=msize, parts=parts, p=p: ctx.tlc_check(
